@@ -130,7 +130,11 @@ func propC10(r *kernel.Run) {
 	if loader || tp.Draw(3) == 0 {
 		nodeIDA, nodeIDB = "node-A", "node-B"
 	}
-	a := enroll(r, w, NewIdent("A0"), mkStruct(r, 2), nodeIDA)
+	stA := mkStruct(r, 2)
+	if tp.Draw(3) == 0 {
+		stA = nil // a record without application state
+	}
+	a := enroll(r, w, NewIdent("A0"), stA, nodeIDA)
 	b := enroll(r, w, NewIdent("B0"), mkStruct(r, 3), nodeIDB)
 	chain := []*nodeSide{a}
 	unrelated := &nodeSide{id: NewIdent("X")}
@@ -299,7 +303,14 @@ func propC10(r *kernel.Run) {
 
 		before := countNodeInfos(w)
 		var resp *types.RotateNodeCredentialsResponse
-		if p, msg, site := kernel.Guard(func() { resp, err = rotation.RotateNodeCredentials(w.Ctx, w.Storage, rr, w.Opts()...) }); p {
+		ropts := w.Opts()
+		if tp.Draw(4) == 0 {
+			// the application's shared option list may carry a WithState of its own; the new record must still carry the
+			// authenticating record's state (also when that state is absent)
+			ropts = append(ropts, nodeenrollment.WithState(mkStruct(r, 3)))
+			r.Count("cfg.caller_options_with_state", 1)
+		}
+		if p, msg, site := kernel.Guard(func() { resp, err = rotation.RotateNodeCredentials(w.Ctx, w.Storage, rr, ropts...) }); p {
 			r.Violate("no-panic", "rotate-node-panic/"+site, "RotateNodeCredentials panicked (%s): %s", corrupt, msg)
 		}
 		after := countNodeInfos(w)
